@@ -186,7 +186,7 @@ impl<T: RealNumber + ScalarOperand> BaseVector<T> for ArrayBase<OwnedRepr<T>, Ix
     }
 
     fn unique(&self) -> Vec<T> {
-        let mut result = self.clone().into_raw_vec();
+        let mut result: Vec<T> = self.iter().cloned().collect();
         result.sort_by(|a, b| a.partial_cmp(b).unwrap());
         result.dedup();
         result
@@ -506,7 +506,7 @@ impl<T: RealNumber + ScalarOperand + AddAssign + SubAssign + MulAssign + DivAssi
     }
 
     fn unique(&self) -> Vec<T> {
-        let mut result = self.clone().into_raw_vec();
+        let mut result: Vec<T> = self.iter().cloned().collect();
         result.sort_by(|a, b| a.partial_cmp(b).unwrap());
         result.dedup();
         result
